@@ -43,6 +43,8 @@ func runC19(c *engine.Ctx) {
 	r4 := c.Rule("R4", "complete-full iff no missing-blocks entry (read before delete); missing entry created exactly when the block is absent", 1)
 	r5 := c.Rule("R5", "send decision = present AND past skip count (post-increment) AND reference count zero (pre-record)", 1)
 	r6 := c.Rule("R6", "tracker state only accessed under linkTrackerLk", 4)
+	r7 := c.Rule("R7", "a response retired without a final message releases its link tracking first, unconditionally", 2)
+	checkClearBeforeTerminate(c, r7)
 
 	ltType := c.P.NamedType("linktracker", "LinkTracker")
 	pltType := c.P.NamedType("responsemanager/responseassembler", "peerLinkTracker")
@@ -515,4 +517,54 @@ func checkSendDecision(c *engine.Ctx, rule string) {
 	c.Decide(rule, key, rets[0].Pos(), incBefore && readBefore,
 		"sendBlock = hasBlock && skip < count (after count++) && BlockRefCount(link) == 0 (before this traversal is recorded)",
 		fmt.Sprintf("ordering broken (per-request counter incremented before the skip comparison: %v; reference count read before recording this traversal: %v)", incBefore, readBefore))
+}
+
+// checkClearBeforeTerminate (C19.R7, C03.R8): wherever the response manager retires a response directly (no final
+// message whose completion would release it), the request's link tracking — reference counts recorded by prepareQuery
+// for do-not-send-cids, the dedup key, the skip count — is cleared first on every path.  A leak makes later requests
+// of the same peer list those links as present without sending the blocks.
+func checkClearBeforeTerminate(c *engine.Ctx, rule string) {
+	term := c.P.Func("responsemanager", "ResponseManager", "terminateRequest")
+	if term == nil {
+		c.AnchorMissing(rule, "responsemanager.ResponseManager.terminateRequest")
+		return
+	}
+	n := 0
+	for _, f := range c.P.FuncsIn("responsemanager") {
+		if engine.FuncPkgPath(f) != engine.Module+"/responsemanager" {
+			continue
+		}
+		var clears, terms []ssa.Instruction
+		engine.Instrs(f, func(in ssa.Instruction) {
+			cc, ok := in.(*ssa.Call)
+			if !ok {
+				return
+			}
+			if cc.Call.IsInvoke() && cc.Call.Method.Name() == "ClearRequest" {
+				clears = append(clears, in)
+			}
+			if cc.Call.StaticCallee() == term {
+				terms = append(terms, in)
+			}
+		})
+		if len(clears) == 0 {
+			continue
+		}
+		c.Analysed(engine.FuncName(f))
+		for i, t := range terms {
+			n++
+			ok := false
+			for _, cl := range clears {
+				if engine.Before(cl, t) {
+					ok = true
+				}
+			}
+			c.Decide(rule, fmt.Sprintf("%s|terminate#%d", engine.FuncName(f), i+1), t.Pos(), ok,
+				"the response's link tracking is cleared on every path to this direct retirement",
+				"a response is retired here without its link tracking being cleared on every path: reference counts recorded when the request was set up (do-not-send-cids, dedup key, skip count) leak, and later requests from the same peer are told those blocks are present without receiving them")
+		}
+	}
+	if n == 0 {
+		c.AnchorMissing(rule, "a responsemanager function that clears link tracking and retires the response (abortRequest)")
+	}
 }
